@@ -204,9 +204,31 @@ def run(rep):
             rep.bad("K-MOD", "K-MOD/cast-arm", km[0]["sp"], "Cast arm", str(list(rows)))
         else:
             s = show(ca["body"])
-            ok = ("misc = Option::Some(Clone::clone(s))" in s and "ModSym::Flt => (Expression::Cast(Clone::clone(f), s), f)" in s and "ModSym::Int => (Expression::Cast(Clone::clone(f), s), f)" in s
-                  and "ModSym::Not => (Expression::Field(Clone::clone(f)), f)" in s and "ModSym::Str => (Expression::Cast(Clone::clone(f), s), f)" in s)
-            rep.check(ok, "K-MOD", "K-MOD/cast", ca["sp"], "int/flt/str(k) keep the cast on the key; not(k) compares the plain field and remembers the negation", s[:160])
+            fid = strip_ref(subpat(ca["pat"], 0)).get("id")
+            sid = strip_ref(subpat(ca["pat"], 1)).get("id")
+            mrows = {}
+            for mm in walk(ca["body"]):
+                if mm.get("k") == "Match" and q.var_id(mm["scrut"]) == sid:
+                    for arm in mm["arms"]:
+                        t = unblock(arm["body"])
+                        desc = None
+                        if t.get("k") == "Tuple" and len(t["fields"]) == 2 and q.var_id(t["fields"][1]) == fid:
+                            a0 = peel(t["fields"][0])
+                            if a0.get("k") == "Adt" and a0["adt"] == "parser::Expression":
+                                fm0 = {x["name"]: x["e"] for x in a0["fields"]}
+                                keyf = peel(fm0.get("0", {}))
+                                okkey = call_is(keyf, "Clone::clone") and q.var_id(keyf["args"][0]) == fid
+                                if a0["variant"] == "Cast" and okkey and q.var_id(fm0.get("1", {})) == sid:
+                                    desc = "Cast"
+                                elif a0["variant"] == "Field" and okkey:
+                                    desc = "Field"
+                        for alt in or_pats(arm["pat"]):
+                            vv = variant_of(alt)
+                            if vv:
+                                mrows[vv[1]] = desc
+            okmisc = any(x.get("k") == "Assign" and show(x["lhs"]) == "misc" and "Option::Some(Clone::clone(" in show(x["rhs"]) and q.var_id(peel(peel(x["rhs"])["fields"][0]["e"])["args"][0]) == sid for x in walk(ca["body"]) if x.get("k") == "Assign" and peel(x["rhs"]).get("k") == "Adt")
+            ok = okmisc and mrows == {"Flt": "Cast", "Int": "Cast", "Str": "Cast", "Not": "Field"}
+            rep.check(ok, "K-MOD", "K-MOD/cast", ca["sp"], "int/flt/str(k) keep the cast on the key; not(k) compares the plain field and remembers the negation", "%s misc-recorded=%s" % (mrows, okmisc))
         ia = rows.get("Expression::Identifier($s)")
         rep.check(ia is not None and show(ia["body"]) == "(Expression::Field(Clone::clone(s)), s)", "K-MOD", "K-MOD/plain", ia["sp"] if ia else km[0]["sp"], "a plain key is Field(k)", show(ia["body"]) if ia else "-")
         ma = rows.get("Expression::Match($m, $i)")
@@ -214,9 +236,17 @@ def run(rep):
         rep.check(okm, "K-MOD", "K-MOD/match", ma["sp"] if ma else km[0]["sp"], "all(k)/of(k,n) wrap Field(k) in the same quantifier", show(ma["body"])[:120] if ma else "-")
         other = [p for p in rows if p not in ("Expression::Cast($f, $s)", "Expression::Identifier($s)", "Expression::Match($m, $i)")]
         rep.check(other == ["_"] and any(x.get("k") == "Return" for x in walk(rows["_"]["body"])), "K-MOD", "K-MOD/others-rejected", km[0]["sp"], "any other key form is an error", str(other))
-    tail = [n for n in walk(pm.body) if n.get("k") == "If" and show(n["cond"]) == "let Option::Some(ModSym::Not) = misc"]
-    okt = len(tail) == 1 and show(tail[0]["then"]) == "<T, A>::push(expressions, Expression::Negate(<T>::new(expression)))" and show(tail[0]["else"]) == "<T, A>::push(expressions, expression)"
-    rep.check(okt, "K-MOD", "K-MOD/not-negates-entry", tail[0]["sp"] if tail else pm.sp, "not(k): the whole entry is negated; otherwise it is used as is", show(tail[0])[:140] if tail else "-")
+    okt = False
+    tsite = pm.sp
+    for n in walk(pm.body):
+        sc, brs = q.branches(n)
+        if sc is None or show(sc) != "misc" or len(brs) != 2:
+            continue
+        (p0, b0), (p1, b1) = brs
+        if p0 is not None and pat_str(p0) == "Option::Some(ModSym::Not)" and p1 is None and b1 is not None:
+            tsite = n["sp"]
+            okt = show(facts.only(b0)) == "<T, A>::push(expressions, Expression::Negate(<T>::new(expression)))" and show(facts.only(b1)) == "<T, A>::push(expressions, expression)"
+    rep.check(okt, "K-MOD", "K-MOD/not-negates-entry", tsite, "not(k): the whole entry is negated; otherwise it is used as is", "")
     # keys with spaces are re-joined
     rep.check("<impl [T]>::join(Deref::deref(identifier), \" \")" in show(pm.body), "K-MOD", "K-MOD/keys-with-spaces", pm.sp, "identifier tokens split at spaces are joined back with a space", "")
 
@@ -229,11 +259,22 @@ def run(rep):
     fl = [n for n in walk(pm.body) if n.get("k") == "For" and show(n["iter"]) == "mapping"]
     okf = len(fl) == 1 and all(any(l is fl[0] for l in p) for n, p in walk_with_path(pm.body) if call_is(n, "::push") and show(n["args"][0]) == "expressions")
     rep.check(okf, "T-CONJ", "T-CONJ/in-order", fl[0]["sp"] if fl else pm.sp, "entries are appended while iterating the mapping in its own order", "")
-    fin = pm.body.get("expr")
-    sfin = show(fin) if fin else ""
-    rep.check(sfin == "Result::Ok(Expression::BooleanGroup(BoolSym::And, expressions))", "T-CONJ", "T-CONJ/mapping-is-and", pm.sp, "a mapping with several entries is the and-group of them", sfin)
-    s = show(pm.body)
-    rep.check("if (<T, A>::len(expressions) Eq 1) {return Result::Ok(<T>::expect(Iterator::next(IntoIterator::into_iter(expressions)), \"..\"))}" in s, "T-CONJ", "T-CONJ/single-entry", pm.sp, "a one-entry mapping is that entry", "")
+    # results of parse_mapping: Ok(and-group of the entries) in general, Ok(the entry) for exactly one entry
+    oks = [n for n in walk(pm.body) if n.get("k") == "Adt" and n["adt"].endswith("result::Result") and n["variant"] == "Ok" and not any(p for p in ())]
+    tails = []
+    for n, path in walk_with_path(pm.body):
+        if n.get("k") == "Adt" and n["adt"].endswith("result::Result") and n["variant"] == "Ok" and not any(p.get("k") in ("For", "Loop", "Closure") for p in path):
+            tails.append((n, path))
+    grp = [n for n, _ in tails if show(n) == "Result::Ok(Expression::BooleanGroup(BoolSym::And, expressions))"]
+    one = [(n, p) for n, p in tails if show(n) == "Result::Ok(<T>::expect(Iterator::next(IntoIterator::into_iter(expressions)), \"..\"))"]
+    rep.check(len(grp) == 1 and len(tails) == 2, "T-CONJ", "T-CONJ/mapping-is-and", pm.sp, "a mapping with several entries is the and-group of them (the only other Ok result is the single entry)", "; ".join(show(n)[:70] for n, _ in tails))
+    ok1 = False
+    if len(one) == 1:
+        n1, p1 = one[0]
+        ctx1 = q.context(p1, n1)
+        ok1 = any(e[0] == "if" and e[2] and show(e[1]) == "(<T, A>::len(expressions) Eq 1)" for e in ctx1) or \
+            any(e[0] == "arm" and show(e[2]) == "<T, A>::len(expressions)" and strip_ref(e[1]).get("k") == "Const" and strip_ref(e[1])["v"].startswith("1") for e in ctx1)
+    rep.check(ok1, "T-CONJ", "T-CONJ/single-entry", pm.sp, "a one-entry mapping is that entry (taken only when the length is 1)", "")
     pi = F.fn("parser::parse_identifier")
     if pi is None:
         rep.lost("T-CONJ", "T-CONJ/parse_identifier", "parser::parse_identifier")
@@ -254,16 +295,22 @@ def run(rep):
         for n, path in walk_with_path(f.body):
             if n.get("k") == "Call" and n.get("fn") and (n["fn"].endswith("Document::find") or n["fn"].endswith("Object::find")) and not n.get("exp"):
                 nf += 1
-                parent = [p for p in path if p.get("k") == "Match" and peel(p["scrut"]) is n]
+                fb = q.failure_branch(f.body, n)
                 key = "MISSING/%s#%d" % (fname.split("::")[-1], nf)
-                if not parent:
+                if fb is None:
                     # handed on unchanged (Passthrough(value)): its own find site is one of the others
-                    ok = any(p.get("k") == "Block" for p in path) and "Passthrough::Passthrough(value)" in show([p for p in path if p.get("k") == "Block"][-1])
+                    ok = any(p.get("k") == "Block" for p in path) and any(x.get("k") == "Adt" and x["adt"] == "solver::Passthrough" for x in walk([p for p in path if p.get("k") == "Block"][-1]))
                     rep.check(ok, "MISSING", key, n["sp"], "the lookup result is passed on unchanged to the private Passthrough document", show(n)[:60])
                     continue
-                none = q.find_arm(parent[-1], "Option", "None")
-                b = show(none["body"]) if none else "-"
-                ok = none is not None and (q.returns_sr(none["body"], "Missing") or b == "{hit = SolverResult::Missing; break}")
+                b = show(fb) if isinstance(fb, dict) else str(fb)
+                fbb = facts.only(fb) if isinstance(fb, dict) else {}
+                row_missing = False
+                from show import is_debug_stmt
+                real = [st for st in fbb.get("stmts", []) if not (st["k"] == "Expr" and is_debug_stmt(st["e"]))] if fbb.get("k") == "Block" else []
+                if isinstance(fb, dict) and len(real) == 2:
+                    a0, a1 = peel(real[0].get("e") or {}), peel(real[1].get("e") or {})
+                    row_missing = a0.get("k") == "Assign" and q.is_sr(a0["rhs"], "Missing") and a1.get("k") == "Break"
+                ok = isinstance(fb, dict) and (q.returns_sr(fb, "Missing") or row_missing)
                 rep.check(ok, "MISSING", key, n["sp"], "absent field => Missing (or a Missing row in a matrix)", b[:80])
     rep.check(nf >= 20, "MISSING", "MISSING/sites", "src/solver.rs", "at least twenty lookup sites", str(nf))
     core.import_rules(rep, "c06", {"TRI-AND", "TRI-OR", "TRI-NOT", "TRI-ALL", "TRI-OF", "TRI-VERDICT"})
